@@ -108,7 +108,8 @@ class Shard:
 
     # -------------------------------------------------------------------
     def out_of_time(self):
-        return time.time() > self.deadline
+        # a tree on which calls keep hanging is not explored further (each costs the full watchdog)
+        return time.time() > self.deadline or HANGS[0] >= MAX_HANGS
 
     def case(self, shape_hash=None, nontrivial=True):
         self.evals += 1
@@ -200,6 +201,10 @@ class Shard:
         return None
 
     def result(self):
+        if HANGS[0] >= MAX_HANGS:
+            self.counters["stopped_after_repeated_hangs"] += 1
+            if not self.violations and not self.known:
+                self.errors.append("shard stopped early: the per-call watchdog fired %d times without any oracle flagging a violation" % HANGS[0])
         return {
             "errors": self.errors,
             "evals": self.evals,
@@ -224,11 +229,14 @@ def guard(fn, *a, **kw):
     call that never returns into ('exc', HangError)."""
     st, val = guard_timed(GUARD_SECONDS, fn, *a, **kw)
     if st == "hang":
+        HANGS[0] += 1
         return "exc", HangError("call did not finish within %ds" % GUARD_SECONDS)
     return st, val
 
 
 GUARD_SECONDS = 30
+HANGS = [0]  # calls cut by the watchdog in this worker; after a few the shard stops early
+MAX_HANGS = 4
 
 
 class Hang(BaseException):
